@@ -181,6 +181,7 @@ package hessian
 //@   loop 1 decreases length
 //@   ensures [C09,C02:str-empty]             value == "" ==> len(result) == 1 && result[0] == 0x00
 //@   ensures [C09,C02,C01:str-production]   value != "" ==> streamOf(result) == G.strProd(runes(value))
+//@   ensures [C02:str-len-units-2.0] forall k int :: 0 <= k && k < len(runes(value)) ==> runes(value)[k] < 0x10000
 
 //@ func encodeBinary
 //@   pure
